@@ -7,6 +7,7 @@ import Rpcx.Driver.Pool
 import Rpcx.Driver.FailMode
 import Rpcx.Driver.Fanout
 import Rpcx.Driver.Discovery
+import Rpcx.Driver.Mux
 /-
   Line-protocol driver: one operation per input line, one canonical output line per
   operation.  Runs the executable definitions of the model (generated and hand-written);
@@ -28,6 +29,7 @@ def step (line : String) : String :=
   | "fb" :: ws => cmdFb ws
   | "fan" :: ws => cmdFan ws
   | "filter" :: ws => cmdFilter ws
+  | "mux" :: ws => cmdMux ws
   | _ => "bad-op"
 
 partial def loop (hin : IO.FS.Stream) (hout : IO.FS.Stream) : IO Unit := do
